@@ -31,6 +31,7 @@ type Obligation struct {
 	Values    []namedTerm // terms whose model values are requested
 	ctx       *Ctx
 	Bounded   string // non-empty: counted as bounded, with this note
+	Replay    *ReplayPlan
 }
 
 type namedTerm struct {
